@@ -308,7 +308,9 @@ def float_companion(mod, cases, impl_out, tier):
     if not kinds or os.environ.get('VERIF_FLOAT', '1') == '0':
         return None, []
     tol = F(getattr(mod, 'FLOAT_TOL', 1e-7))
-    sel = [c for c in cases if c.line and c.kind in kinds and impl_out.get(id(c)) not in (None, 'HANG', 'SKIPPED-AFTER-HANGS')]
+    flt = getattr(mod, 'FLOAT_FILTER', None)       # a module may leave out ill-conditioned cases (and must say why)
+    sel = [c for c in cases if c.line and c.kind in kinds and impl_out.get(id(c)) not in (None, 'HANG', 'SKIPPED-AFTER-HANGS')
+           and (flt is None or flt(c))]
     sel = sel[:(150 if tier == 'quick' else 1500)]
     if not sel:
         return dict(cases=0), []
